@@ -114,7 +114,7 @@ def run_one(job):
     shutil.copytree(os.path.join(REPO, 'maltoolbox'), os.path.join(d, 'maltoolbox'))
     with open(os.path.join(d, mod_rel), 'w') as f:
         f.write(new_src)
-    env = dict(os.environ, VERIF_REPO=d, PYVC_JOBS=str(jobs_inner))
+    env = dict(os.environ, VERIF_REPO=d, PYVC_JOBS=str(jobs_inner), PYVC_CALL_CANARY='1')
     t0 = time.time()
     try:
         r = subprocess.run(['python3-vt', '-m', 'pyvc.dev', key], env=env, capture_output=True, text=True, cwd=ROOT, timeout=900)
@@ -132,6 +132,8 @@ def run_one(job):
             n, m = int(l.split(': ')[1].split(' ')[0]), int(l.split(', ')[1].split(' ')[0])
             verdict = 'survived' if n == m else 'killed'
             detail = l[len(key) + 2:][:120]
+    if any(l.strip().startswith('CALL-VACUOUS') for l in out.split('\n')) and verdict == 'survived':
+        verdict, detail = 'killed', 'vacuity guard: ' + [l.strip() for l in out.split('\n') if l.strip().startswith('CALL-VACUOUS')][0][:160]
     if verdict == 'killed':
         first = [l.strip() for l in out.split('\n') if l.strip().startswith(('FAILED', 'UNKNOWN'))][:2]
         detail += ' | ' + ' ; '.join(x[:110] for x in first)
